@@ -24,7 +24,8 @@ META = {
  "C01": _m("exploration",
     "one evaluation = one simulated run: 1-3 clients, a drawn heap placement x reuse x noise policy, a generated pair (A,B) of explicit tree automata (<= 7 states, <= 5 ranked symbols, rank <= 2, rarely 3; B often derived from A) loaded by text or rule by rule, the inclusion selections issued in a drawn order (directly and through the CLI protocol of cli/operations.hh) while other clients load, mutate, copy and destroy automata and churn the heap. Oracle: exact bottom-up subset-construction inclusion; all 8 selections agree; unimplemented selections throw. A case is non-trivial and distinct by the hash of (A, B, selection, call path) once the reference produced a verdict.",
     ["downward selections are exponential by construction: exhausting their tick budget (3*10^6 allocator events) is recorded as inconclusive, not as a hang; the upward selections have a 3*10^7 budget and exhausting it is a violation",
-     "sim=yes selections are called only through the CLI's own sequence (sanitise, UnionDisjointStates, ComputeSimulation(numStates), CheckInclusion)"], Q),
+     "sim=yes selections are called only through the CLI's own sequence (sanitise, UnionDisjointStates, ComputeSimulation(numStates), CheckInclusion)"],
+    {"quick": {"plain": 35, "san": 10}, "thorough": {"plain": 900, "san": 300}}),
  "C02": _m("exploration",
     "one run: generated operands with overlapping or sparse state numbers, empty operands, useless states; Union (no / both / one map), UnionDisjointStates (client makes the state sets disjoint first), Intersection and IntersectionBU with absent, empty and pre-filled (left by an earlier identical call) maps; operands possibly shared copy-on-write with other handles; afterwards operands and results are mutated / destroyed. Oracle: exact language equality with the model union / product; the reported maps name an operand state / pair for every result state; operands unchanged; every live handle equals its model at the end. Distinct non-trivial case = hash of (A, B, operation).",
     ["the language claim itself is a function of the inputs; simulation contributes the environment quantifier (layout decides product numbering, sharing, history)"], Q),
